@@ -5,26 +5,15 @@ From Coq Require Import List Arith NArith ZArith Bool String Lia.
 Import ListNotations.
 Require Import PV.Comb.PState PV.Comb.Bytes PV.Iter.Queue PV.Peg.Ast PV.Peg.Spec PV.Opt.Sem PV.Opt.SemProofs PV.Opt.SemCong PV.Opt.MapExpr.
 
-(* all string literals of an expression; side conditions of laws are stated as Forall Q (estrs e) *)
-Fixpoint estrs (e : expr) : list str :=
-  match e with
-  | EStr s | EInsens s | EPushLiteral s => [s]
-  | ESkip ss => ss
-  | EPosPred x | ENegPred x | EOpt x | ERep x | ERepOnce x | ERepExact x _ | ERepMin x _ | ERepMax x _
-  | ERepMinMax x _ _ | EPush x | ENodeTag x _ => estrs x
-  | ESeq a b | EChoice a b => estrs a ++ estrs b
-  | _ => []
-  end.
-
 Section MapSound.
 Variable G : grammar.
 Variable extras : bool.
 Variable uprop : name -> option (N -> bool).
 Variable w : list byte.
-Variable Inv : state_inv.
-Hypothesis HP : preserved G extras uprop w Inv.
-Variable a : atom.
 Variable Q : str -> Prop.
+Variable Inv : state_inv.
+Hypothesis HP : preserved G extras uprop w Q Inv.
+Variable a : atom.
 Variable f : expr -> option expr.
 
 Notation equiv := (equiv G extras uprop w Inv a).
@@ -34,9 +23,6 @@ Hypothesis Hf : forall e e', SV e -> f e = Some e' -> equiv e e' /\ SV e'.
 Lemma SV_app x y : SV x -> SV y -> Forall Q (estrs x ++ estrs y).
 Proof. intros. apply Forall_app; auto. Qed.
 
-Ltac split_sv := repeat match goal with H : SV (_ _ _) |- _ => unfold SV in H; cbn [estrs] in H; apply Forall_app in H; destruct H
-                                   | H : SV (_ _) |- _ => unfold SV in H; cbn [estrs] in H
-                                   | H : SV (_ _ _ _) |- _ => unfold SV in H; cbn [estrs] in H end.
 
 Theorem map_top_down_equiv : forall fuel e e', SV e -> map_top_down fuel f e = Some e' -> equiv e e' /\ SV e'.
 Proof.
@@ -51,12 +37,12 @@ Proof.
   - now apply eqv_pos. - now apply eqv_neg.
   - destruct (map_top_down n f e1_1) as [y1|] eqn:M1; [|discriminate]. destruct (map_top_down n f e1_2) as [y2|] eqn:M2; [|discriminate].
     cbn in H. injection H as <-. unfold SV in S1. cbn [estrs] in S1. apply Forall_app in S1. destruct S1 as [Sa Sb].
-    destruct (IH _ _ Sa M1) as [E1' S1']. destruct (IH _ _ Sb M2) as [E2' S2']. apply T; [now apply eqv_seq|now apply SV_app].
+    destruct (IH _ _ Sa M1) as [E1' S1']. destruct (IH _ _ Sb M2) as [E2' S2']. apply T; [now apply (eqv_seq G extras uprop w Q Inv HP)|now apply SV_app].
   - destruct (map_top_down n f e1_1) as [y1|] eqn:M1; [|discriminate]. destruct (map_top_down n f e1_2) as [y2|] eqn:M2; [|discriminate].
     cbn in H. injection H as <-. unfold SV in S1. cbn [estrs] in S1. apply Forall_app in S1. destruct S1 as [Sa Sb].
     destruct (IH _ _ Sa M1) as [E1' S1']. destruct (IH _ _ Sb M2) as [E2' S2']. apply T; [now apply eqv_cho|now apply SV_app].
-  - now apply eqv_opt. - now apply eqv_rep. - now apply eqv_rep1. - now apply eqv_repexact. - now apply eqv_repmin.
-  - now apply eqv_repmax. - now apply eqv_repminmax. - now apply eqv_push. - now apply eqv_tag.
+  - now apply eqv_opt. - now apply (eqv_rep G extras uprop w Q Inv HP). - now apply (eqv_rep1 G extras uprop w Q Inv HP). - now apply (eqv_repexact G extras uprop w Q Inv HP). - now apply (eqv_repmin G extras uprop w Q Inv HP).
+  - now apply (eqv_repmax G extras uprop w Q Inv HP). - now apply (eqv_repminmax G extras uprop w Q Inv HP). - now apply eqv_push. - now apply eqv_tag.
 Qed.
 
 Theorem map_bottom_up_equiv : forall e e', SV e -> map_bottom_up f e = Some e' -> equiv e e' /\ SV e'.
@@ -69,11 +55,11 @@ Proof.
          assert (S' : SV e) by exact S; destruct (IHe _ S' eq_refl) as [Ey Sy]; refine (T _ _ _ _ _ H); [|exact Sy]).
   - now apply eqv_pos. - now apply eqv_neg.
   - destruct (map_bottom_up f e1) as [y1|] eqn:M1; cbn [obind] in H; [|discriminate]. destruct (map_bottom_up f e2) as [y2|] eqn:M2; cbn [obind] in H; [|discriminate]. unfold SV in S. cbn [estrs] in S. apply Forall_app in S. destruct S as [Sa Sb].
-    destruct (IHe1 _ Sa eq_refl) as [E1' S1']. destruct (IHe2 _ Sb eq_refl) as [E2' S2']. refine (T _ _ _ _ _ H); [now apply eqv_seq|now apply SV_app].
+    destruct (IHe1 _ Sa eq_refl) as [E1' S1']. destruct (IHe2 _ Sb eq_refl) as [E2' S2']. refine (T _ _ _ _ _ H); [now apply (eqv_seq G extras uprop w Q Inv HP)|now apply SV_app].
   - destruct (map_bottom_up f e1) as [y1|] eqn:M1; cbn [obind] in H; [|discriminate]. destruct (map_bottom_up f e2) as [y2|] eqn:M2; cbn [obind] in H; [|discriminate]. unfold SV in S. cbn [estrs] in S. apply Forall_app in S. destruct S as [Sa Sb].
     destruct (IHe1 _ Sa eq_refl) as [E1' S1']. destruct (IHe2 _ Sb eq_refl) as [E2' S2']. refine (T _ _ _ _ _ H); [now apply eqv_cho|now apply SV_app].
-  - now apply eqv_opt. - now apply eqv_rep. - now apply eqv_rep1. - now apply eqv_repexact. - now apply eqv_repmin.
-  - now apply eqv_repmax. - now apply eqv_repminmax. - now apply eqv_push. - now apply eqv_tag.
+  - now apply eqv_opt. - now apply (eqv_rep G extras uprop w Q Inv HP). - now apply (eqv_rep1 G extras uprop w Q Inv HP). - now apply (eqv_repexact G extras uprop w Q Inv HP). - now apply (eqv_repmin G extras uprop w Q Inv HP).
+  - now apply (eqv_repmax G extras uprop w Q Inv HP). - now apply (eqv_repminmax G extras uprop w Q Inv HP). - now apply eqv_push. - now apply eqv_tag.
 Qed.
 
 End MapSound.
